@@ -342,7 +342,8 @@ def run(chk):
     n_malf = 6000 if big else 900
     n_deliv = 1500 if big else 300
     objs = Objs()
-    TARGETS = [object(), object(), "mapped", 99, 2.5, None.__class__]
+    # lookup targets include FALSY values (0, 0.0, "", None, [], {}): a lookup hit must win even then (C08)
+    TARGETS = [object(), object(), "mapped", 99, 2.5, 0, 0.0, "", None, [], {}]
     gal, meta = [], []
     hist = {"structured": 0, "malformed": 0, "delivery": 0, "raise_stopped": 0, "float_timespan": 0,
             "with_lookup": 0, "ValueError_comma": 0, "ValueError_stopped": 0, "with_spaces": 0,
@@ -354,7 +355,7 @@ def run(chk):
             return {}
         keys = rng.sample(["a", "ab", "b", 1, 12, 1.5, 0.5, 7, "xyz", "a-b", -5, 100.0, "^"], rng.randrange(1, 4))
         # keys distinct under == (1 / 1.0 would be the same dict key)
-        return {k: rng.choice(TARGETS[:5]) for k in keys}
+        return {k: rng.choice(TARGETS) for k in keys}
 
     def rand_times():
         ts = rng.choice([1, 2, 10, 1.0, 0.1, 0.5, 3.0, 0.3])
